@@ -124,10 +124,11 @@ def stepOp (m : M) (op impl : String) : M × String × String :=
     else (m, "-", if f.head?.any (·.startsWith "x") then "ok" else "viol:unknown-op")
   | ["sweepfix", mode, _] =>
     if m.stream.isNone then (m, "no-stream", "ok") else
-    let v := match natOf impl "partial" with
-      | some 0 => "ok"
-      | some _ => if mode == "bytes" then "viol:partial-apply-bytes-path-crcfixed" else "viol:partial-apply"
-      | none => "viol:sweep-output-malformed"
+    let v := match natOf impl "partial", natOf impl "panics" with
+      | some 0, some 0 => "ok"
+      | some _, some 0 => if mode == "bytes" then "viol:partial-apply-bytes-path-crcfixed" else "viol:partial-apply"
+      | some _, some _ => if mode == "bytes" then "viol:panic-bytes-path-crcfixed" else "viol:panic"
+      | _, _ => "viol:sweep-output-malformed"
     (m, "-", v)
   | ["xsweepfix", _, _] =>
     let v := match natOf impl "partial" with
@@ -142,6 +143,7 @@ def stepOp (m : M) (op impl : String) : M × String × String :=
         if impl == "rejected left=0" then "ok"
         else if kind == "fixflip" ∧ mode == "bytes" then "viol:partial-apply-bytes-path-crcfixed"
         else "viol:partial-apply"
+      else if impl == "panic" then (if kind == "fixflip" ∧ mode == "bytes" then "viol:panic-bytes-path-crcfixed" else "viol:panic")
       else if impl.startsWith "accepted" then (if kind == "fixflip" then "ok" else "viol:corrupt-stream-accepted")
       else "viol:corrupt-output-malformed"
     (m, "-", v)
